@@ -12,6 +12,13 @@ import (
 	"time"
 )
 
+// package-level state: shared by every goroutine, and put back to these values before every execution
+var (
+	verifWarned  bool
+	verifScratch []byte
+	verifCount   = 7
+)
+
 type verifLitmus struct {
 	mu   sync.Mutex
 	rw   sync.RWMutex
@@ -229,6 +236,28 @@ func Run(name string) string {
 		}()
 		return res
 	// ---- race-detector litmus: the outcome is irrelevant, the report matters
+	case "race-global": // "warn once" on a plain package-level flag: check-then-set from two goroutines
+		for i := 0; i < 2; i++ {
+			wg.Add(1)
+			go func() {
+				defer wg.Done()
+				if !verifWarned {
+					verifWarned = true
+				}
+			}()
+		}
+		wg.Wait()
+	case "global-fresh": // what one execution leaves in package-level variables is not seen by the next
+		seen := "fresh"
+		if verifWarned || verifScratch != nil || verifCount != 7 {
+			seen = "stale"
+		}
+		l.mu.Lock()
+		verifWarned = true
+		verifScratch = append(verifScratch, 1)
+		verifCount++
+		l.mu.Unlock()
+		return seen
 	case "race-plain": // two unsynchronised writers
 		for i := 0; i < 2; i++ {
 			wg.Add(1)
